@@ -112,6 +112,35 @@ func (w *World) everyTXIDOracle(rc *Recorder, logical bool) {
 	tmp := filepath.Join(w.dir, "tmp")
 	os.MkdirAll(tmp, 0o755)
 	var prev int64 = -1
+	// bound the quadratic cost: every TXID of a level >= 1 and the newest TXIDs, plus a sample of the rest
+	if len(all) > 80 {
+		keep := map[uint64]bool{}
+		for _, t := range all[len(all)-20:] {
+			keep[t] = true
+		}
+		levels, _ := os.ReadDir(filepath.Join(w.replicaDir, "ltx"))
+		for _, lv := range levels {
+			if lv.Name() == "0" {
+				continue
+			}
+			ents, _ := os.ReadDir(filepath.Join(w.replicaDir, "ltx", lv.Name()))
+			for _, e := range ents {
+				if _, max, err := ltx.ParseFilename(e.Name()); err == nil {
+					keep[uint64(max)] = true
+				}
+			}
+		}
+		for len(keep) < 80 {
+			keep[all[w.rng.Intn(len(all))]] = true
+		}
+		var sel []uint64
+		for _, t := range all {
+			if keep[t] {
+				sel = append(sel, t)
+			}
+		}
+		all = sel
+	}
 	for _, t := range all {
 		a := filepath.Join(tmp, "all.db")
 		b := filepath.Join(tmp, "l0.db")
@@ -172,12 +201,13 @@ func runC02(rc *Recorder, dir string, rng *rand.Rand, steps int) error {
 	go func() { // the application writer
 		defer wg.Done()
 		var v int64
-		for {
+		for n := 0; n < 150; n++ { // bounded: every commit becomes a TXID that the oracle restores twice
 			select {
 			case <-stop:
 				return
 			default:
 			}
+			time.Sleep(time.Duration(500+wrng.Intn(2500)) * time.Microsecond)
 			tx, err := w.app.Begin()
 			if err != nil {
 				continue
